@@ -118,6 +118,14 @@ theorem gen_encoder_axes :
     gumbelFwdIsSoftmaxOfLogitsPlusNoiseOverTau = true ∧ encoderBackExpandsLastAxis = true ∧
     encoderFwdContractsLastAxis = true := by decide
 
+/-- no backprop reads an attribute of `self` that the forward neither reads nor writes: parameters re-assigned on a live
+node (temperature annealing, slopes, offsets, level sets, DM geometry) reach forward and backprop alike -/
+theorem gen_live_attributes :
+    backpropReadsLiveAttributesSoftmax = true ∧ backpropReadsLiveAttributesGumbelSoftmax = true ∧
+    backpropReadsLiveAttributesDiscreteEncoder = true ∧ backpropReadsLiveAttributesTanh = true ∧
+    backpropReadsLiveAttributesArctan = true ∧ backpropReadsLiveAttributesSoftplus = true ∧
+    backpropReadsLiveAttributesSigmoid = true ∧ backpropReadsLiveAttributesDM = true := by decide
+
 /-- `intensity_backprop` and `from_amp_and_phase_backprop_phase` are the model's formulas -/
 theorem gen_wavefront (Ibar k : K) (E gbar g : Cx K) :
     intensityBack Ibar E = Model.C06.intensityBack Ibar E ∧ phaseBack k gbar g = Model.C06.phaseBack k gbar g ∧
